@@ -244,6 +244,10 @@ Proof.
     cbn [parse_contents]. rewrite slice_from_app.
     rewrite list_case_ne by (destruct h; [discriminate Hh4 | cbn [app]; discriminate]).
     rewrite <- !app_assoc. rewrite (get_int_write _ _ _ _ Hh). cbn [bind].
+    assert (Hchk : ((zlen d <? 0) || (zlen (pre ++ h ++ d ++ b' ++ []) <? zlen pre + 4 + zlen d)) = false).
+    { apply orb_false_intro; apply Z.ltb_ge; [apply zlen_nonneg |].
+      rewrite !zlen_app. pose proof (zlen_nonneg b'). rewrite zlen_nil. lia. }
+    rewrite Hchk.
     assert (Hcontent : slice (pre ++ h ++ d ++ b' ++ []) (zlen pre + 4) (zlen pre + 4 + zlen d) = d).
     { rewrite (app_assoc pre h). replace (zlen pre + 4) with (zlen (pre ++ h)) by (rewrite zlen_app; lia). apply slice_app. }
     rewrite Hcontent.
